@@ -20,7 +20,7 @@ def check(run):
     exe = vlib.build_harness(run)
     U = vlib.universe(run, ECOS)
     rnd = random.Random(run.seed)
-    acc = vlib.accepted(run, exe, U, regex_extra=200 if quick else 1500, rnd=rnd)
+    acc = vlib.accepted(run, exe, U, regex_extra=200 if quick else 1500, rnd=rnd, tokens=2 if quick else 3, tokens_cap=300 if quick else 1500)
     rnd = random.Random(run.seed)
     allpads = paddings(run)                # 441 pairs
     nonempty = [p for p in allpads if p["l"] or p["r"]]
